@@ -50,7 +50,7 @@ class C10(Check):
             "or a tamper case.")
     assumptions = ["Botan 2.19 and nettle 3.8 are trusted as independent references; parameter combinations they cannot express "
                    "are skipped and counted", "keys are imported from a fixed pool generated once (fixtures/keypool.json)"]
-    essential_labels = {"tamper_rejected": 1500, "multipart_equal": 1500, "ref_equal": 2500, "cross_verified": 600}
+    essential_labels = {"tamper_rejected": 1000, "multipart_equal": 1000, "ref_equal": 2500, "cross_verified": 600}
 
     def setup(self, ctx):
         ctx.shared["tpl"] = Template(ctx.env, ntokens=1)
